@@ -25,6 +25,17 @@ HISTORY = {
     "C12-4": "missed at first (requests had no Uri-Query): new key-difference kind [a,b] vs [a]?b",
     "C12-5": "missed at first: new key-difference kind with one leading empty segment",
     "C17-4": "missed at first (no multi-byte white space in the generators): random strings now include every kind of blank and link-shaped strings with blanks around '='",
+    "C08-6": "missed at first (no unrelated traffic inside a transfer; C20 caught the same change): downloads now send 0..1500 plain requests on other keys after the first block",
+    "C08-8": "missed at first (C12 caught the same change): chained downloads now include a pair whose paths differ only in segmentation",
+    "C09-8": "missed at first (repeated deliveries had fresh message ids; ids never repeated across uploads): duplicates are now true retransmissions in half of the plans and a new upload may count its ids from the same base as its abandoned predecessor",
+    "C12-7": "missed at first (method pairs were GET/FETCH, PUT/POST): the differing method is now any of the seven codes",
+    "C12-8": "missed at first: new key-difference kind with two different 255-byte segments",
+    "C14-7": "NOT detected, deliberately: needs a 257-byte token; CoAP tokens are 0-8 bytes and every generated token respects that",
+    "C14-8": "missed at first (at most 6 endpoints): new directed part `many-observers-on-one-resource` (up to 1000 endpoints)",
+    "C16-7": "missed at first (`rel` was not among the generated keys): keys now include rel/rev/type/hreflang/media, repeated keys are common",
+    "C16-8": "missed at first (values had no control characters): value alphabet now has C0/C1 controls and DEL",
+    "C17-6": "see result: the recursion only overflows the stack in an unoptimised build; the harness profiles are optimised (opt-level 2), where the change is a loop and the property holds on what is executed. Long inputs (thousands of repeated units) were added anyway",
+    "C20-7": "missed at first: the key under test is now the two-segment path k, v and the intervening traffic includes its look-alikes ('k/v', trailing / leading empty segment, other case, other endpoint, other method)",
     "C04-4": "NOT detected, deliberately: the change only differs for tokens of 256..271 bytes or a TKL set directly after set_token, both outside the property's domain (token of 0-8 bytes); the demo uses a 256-byte token",
     "C04-5": "quick tier misses it by construction (the changed line only exists with the `udp` feature); the thorough tier builds the `udp` configuration and catches it",
 }
